@@ -33,6 +33,11 @@ def gen(rng, tier, index):
         # then a clean stop and restart, then another id request
         cfg["sched"] = {"policy": "rw", "seed": rng.getrandbits(32), "p": rng.choice([0.02, 0.08, 0.2])}
         cfg["max_steps"] = 1_500_000
+        if rng.random() < 0.5:
+            # pre-emption only inside the allocator and the save: makes the narrow windows there likely
+            cfg["window"] = ["add_sensor", "_get_next_id", "handle_id_request", "_save_sensors", "save_sensors", "alert", "_save_json",
+                             "_save_pickle", "__getstate__", "default"]
+            cfg["sched"]["p"] = rng.choice([0.15, 0.3, 0.5])
         ops.append(["line", f"{rng.choice([5, 6, 7])};255;0;0;17;2.0"])
         ops.append(["line_at_save", "255;255;3;0;3;"])
         ops.append(["restart"])
@@ -43,6 +48,13 @@ def gen(rng, tier, index):
         # ids handed out, then one scheduled save fails with a transient error, no further change, clean stop
         ops.append(["line", "255;255;3;0;3;"])
         ops.append(["fault_tick", rng.choice(["write", "fsync", "rename", "rename2", "rename2", "remove"]), rng.choice(["EIO", "EACCES", "ENOSPC"])])
+        ops.append(["restart"])
+        ops.append(["line", "255;255;3;0;3;"])
+    elif cfg["persistence"] and rng.random() < 0.15:
+        # the restarted gateway hits a transient I/O error when it first reads the file; the application retries
+        ops.append(["line", "255;255;3;0;3;"])
+        ops.append(["restart", {"load_fault": rng.choice(["EIO", "EMFILE"])}])
+        ops.append(["line", "255;255;3;0;3;"])
         ops.append(["restart"])
         ops.append(["line", "255;255;3;0;3;"])
     elif cfg["persistence"] and rng.random() < 0.2:
